@@ -222,8 +222,9 @@ Symbol& Context::registerSymbol(const std::string& name, const Type& type)
       break;
     }
   }
-  /* back up old symbol */
-  _backed_symbols.push_back(*s);
+  /* back up old symbol: restored at the end of the parsing in progress */
+  if (_parsing)
+    _backed_symbols.push_back(*s);
   s->upgrade(type);
   return *s;
 }
@@ -263,8 +264,9 @@ Symbol& Context::registerSymbol(const std::string& name, const TupleDecl::Decl& 
       break;
     }
   }
-  /* back up old symbol */
-  _backed_symbols.push_back(*s);
+  /* back up old symbol: restored at the end of the parsing in progress */
+  if (_parsing)
+    _backed_symbols.push_back(*s);
   s->upgrade(decl, level);
   return *s;
 }
